@@ -26,6 +26,10 @@ EXPRS = [
     p.Sum((x, 4)), p.Product((x, 4.0)), p.Min((x, True)), (x, 4), (y, 4.0), (z, True), x, 4, 4.0, True,
     p.Subscript(a, (x, p.Slice((1, None, y)))), p.Lookup(p.CommonSubexpression(SHARED, "c"), "attr"),
     p.Quotient(p.LeftShift(x, 2), p.BitwiseOr((y, z, 1))), p.LogicalNot(p.LogicalAnd((x, y))),
+    # operands that occur bare and as the base / numerator / argument of a node whose handler
+    # may map them twice -- before and after it
+    p.Sum((x, p.Power(x, 2), x)), p.Sum((p.Power(SHARED, y), SHARED)), p.Product((p.Quotient(z, x), z, x)),
+    p.Sum((p.Call(f, (a, x)), a)),
 ]
 ARGSETS = {"noargs": [((), {})],
            "args": [(("p_",), {}), (("q_",), {"suffix": "_t"}), (("p_",), {"suffix": "_t"})]}
